@@ -65,6 +65,16 @@ class Approx:
         return f"~{self.ref!r}"
 
 
+def _has_approx(x):
+    """Hashable values that contain an Approx: members of expected sets / keys of expected dicts that identity-hash."""
+    if type(x) is Approx:
+        return True
+    if isinstance(x, (tuple, frozenset)):
+        return any(_has_approx(v) for v in x)
+    f = model_fields(x) if not isinstance(x, _ATOMS) else None
+    return bool(f) and any(_has_approx(v) for v in f.values())
+
+
 def strict_eq(a, b, _depth=0):  # noqa: C901, PLR0911, PLR0912
     if a is b:
         return True
@@ -92,9 +102,9 @@ def strict_eq(a, b, _depth=0):  # noqa: C901, PLR0911, PLR0912
     if isinstance(a, (list, tuple, collections.deque)):
         return len(a) == len(b) and all(strict_eq(x, y, _depth + 1) for x, y in zip(a, b))
     if isinstance(a, (dict, collections.abc.Mapping)):
-        if len(a) != len(b) and (any(type(k) is Approx for k in a) or any(type(k) is Approx for k in b)):
+        if len(a) != len(b) and (any(_has_approx(k) for k in a) or any(_has_approx(k) for k in b)):
             # keys within the tolerance of each other may merge: every actual item must be an expected one and every expected key present
-            ex, ac = (a, b) if any(type(k) is Approx for k in a) else (b, a)
+            ex, ac = (a, b) if any(_has_approx(k) for k in a) else (b, a)
             return (all(any(strict_eq(k, ek, _depth + 1) and strict_eq(v, ev, _depth + 1) for ek, ev in ex.items()) for k, v in ac.items())
                     and all(any(strict_eq(k, ek, _depth + 1) for k in ac) for ek in ex))
         if len(a) != len(b):
@@ -114,7 +124,7 @@ def strict_eq(a, b, _depth=0):  # noqa: C901, PLR0911, PLR0912
                 return False
         return True
     if isinstance(a, (set, frozenset)):
-        if any(type(x) is Approx for x in a) or any(type(y) is Approx for y in b):
+        if any(_has_approx(x) for x in a) or any(_has_approx(y) for y in b):
             # rounding may merge or keep apart members that are within the tolerance: mutual cover instead of a bijection
             return (all(any(strict_eq(x, y, _depth + 1) for y in b) for x in a)
                     and all(any(strict_eq(x, y, _depth + 1) for x in a) for y in b))
